@@ -417,7 +417,7 @@ def C17(ctx):
     t = "quick" if ctx.quick else "thorough"
     os.makedirs(os.path.join(core.VERIF, "work", "scratch"), exist_ok=True)
     ctx.rule = ("termination of the specification's machines (tokeniser index strictly increases, comparison index strictly "
-                "increases: TLC action properties); every entry point of the statement driven with mutated valid documents "
+                "increases: TLC action properties; brace expansion, tokeniser and glob parser variants in MC_Termination); every entry point of the statement driven with mutated valid documents "
                 "(truncation, duplication, splicing, bit flips, 19-100 digit numbers, NUL, invalid UTF-8, multi-byte "
                 "characters, runs of up to 5000 repeated metacharacters, lone operators, unbalanced braces) under "
                 "catch_unwind and a watchdog; Summary call histories of up to 30 calls including empty lists; each "
@@ -428,6 +428,7 @@ def C17(ctx):
     ctx.mc("MC_DeweyTok", "MC_DeweyTok.%s.cfg" % t)
     ctx.mc("MC_DeweyCmp", "MC_DeweyCmp.quick.cfg")
     ctx.mc("MC_Summary", "MC_Summary.quick.cfg")
+    ctx.mc("MC_Termination", "MC_Termination.%s.cfg" % t)
     rounds = 1 if ctx.quick else 10
     for i in range(rounds):
         ctx.record_validate("hostile", 6000, "Tr_Totality", "Tr_Totality.cfg", name="hostile%d" % i,
